@@ -113,6 +113,16 @@ Example c04_if_example :      (* {{#if: |x| *y }} gives "\n*y" *)
   codes (if_result (chars [32]) [chars [120]; chars [32; 42; 121; 32]]) = [10; 42; 121].
 Proof. reflexivity. Qed.
 
+(* #ifeq with plain arguments: the third argument when the first two, trimmed, are equal - numerically when both are numbers
+   (ParserFns.mw_equal: 01 = 1 = 1.0 = 1e0, 0 = -0), as text otherwise - else the fourth *)
+Theorem c04_ifeq_with_plain_arguments :
+  forall pfnames lib opts stk ea x more,
+    (length stk < 100)%nat -> plain x = true -> forallb plain more = true -> o_parserfns opts = true ->
+    exists F, forall fuel, (F <= fuel)%nat ->
+      expand_T pfnames lib opts fuel stk ea ((ifeq_head ++ x)%list :: more) = Some (ifeq_result x more).
+Proof. exact ifeq_plain. Qed.
+Print Assumptions c04_ifeq_with_plain_arguments.
+
 Theorem c04_flat_rule_is_mediawikis_without_trailing_line_breaks :
   forall lib name args t, find_tpl lib name = Some t -> no_trailing_nl (bind_args args 1 []) = true ->
     result_of lib name args = mw_result_of lib name args.
@@ -145,7 +155,7 @@ Import String.
    docstrings, comments and layout).  A different digest means that the model is no longer known to describe the
    code; the check then reports the broken tie and looks for a failing input. *)
 Theorem c04_models_describe_the_current_source :
-  (pin_expand, pin_finalize_expand, pin_if_fn, pin_ifeq_fn, pin_switch_fn) = ("f2db964246b00d81", "6e6193b54ac95d13", "fa2797b21d9a63fb", "e1aa7edc9b6102c6", "70a23bf19ce6b825")%string.
+  (pin_expand, pin_finalize_expand, pin_if_fn, pin_ifeq_fn, pin_switch_fn) = ("f2db964246b00d81", "6e6193b54ac95d13", "fa2797b21d9a63fb", "01728e159ad1fbf1", "703712a604e90f3e")%string.
 Proof. reflexivity. Qed.
 Print Assumptions c04_models_describe_the_current_source.
 End Pins.
